@@ -88,7 +88,11 @@ func vfC06DataTok(pos int, rows int, sum int64) string {
 // vfC06Ref is the reference lockstep transducer. It returns every acceptable
 // token sequence of the data stream, every acceptable user-code invocation
 // sequence, and the step at which the reference stream ended.
-func vfC06Ref(producer bool, castVariant bool, inputs []vfC06Input, turns []vfC06TurnKind) (alts [][]vfC06Tok, evAlts []string, endStep string) {
+//
+// dropped holds the sequences in which the logs of a producer's finishing turn
+// are missing: NOT acceptable, returned only so that this class of failure gets
+// its own signature.
+func vfC06Ref(producer bool, castVariant bool, inputs []vfC06Input, turns []vfC06TurnKind) (alts [][]vfC06Tok, evAlts []string, endStep string, dropped [][]vfC06Tok) {
 	alts = [][]vfC06Tok{nil}
 	evs := [][]string{{"init"}}
 	extend := func(options ...[]vfC06Tok) {
@@ -187,16 +191,27 @@ func vfC06Ref(producer bool, castVariant bool, inputs []vfC06Input, turns []vfC0
 			}
 			extend(opts...)
 		default:
-			// producer Finish: the stream ends, no exception. Logs of the finishing
-			// turn and a batch emitted together with Finish: either reading.
-			opts := [][]vfC06Tok{nil}
-			if len(logs) > 0 {
-				opts = append(opts, logs)
-			}
+			// producer Finish: the turn ran to completion without error, so its
+			// client logs are part of its output and must be delivered, in order
+			// ("preceded by that turn's logs"; docs/guide/streaming.md: "call
+			// Produce, flush all output, repeat"). Then the stream ends, no
+			// exception. A DATA batch emitted together with Finish: either reading
+			// (statement and docs say "either emit exactly one data batch or call
+			// out.Finish()" and do not define the combination).
+			opts := [][]vfC06Tok{append([]vfC06Tok(nil), logs...)}
 			if t.Emit == 1 {
 				opts = append(opts, withLogs(dataOpts)...)
-				if len(logs) > 0 {
-					opts = append(opts, dataOpts...)
+			}
+			if len(logs) > 0 {
+				before := alts
+				noLogs := [][]vfC06Tok{nil}
+				if t.Emit == 1 {
+					noLogs = append(noLogs, dataOpts...)
+				}
+				for _, a := range before {
+					for _, o := range noLogs {
+						dropped = append(dropped, append(append([]vfC06Tok(nil), a...), o...))
+					}
 				}
 			}
 			extend(opts...)
@@ -207,7 +222,7 @@ func vfC06Ref(producer bool, castVariant bool, inputs []vfC06Input, turns []vfC0
 	for _, e := range evs {
 		evAlts = append(evAlts, strings.Join(e, ","))
 	}
-	return alts, evAlts, endStep
+	return alts, evAlts, endStep, dropped
 }
 
 var vfC06I32Schema = arrow.NewSchema([]arrow.Field{{Name: "x", Type: arrow.PrimitiveTypes.Int32}}, nil)
@@ -342,7 +357,7 @@ func TestVerif_C06(t *testing.T) {
 		}
 		gotEv := strings.Join(evs, ",")
 
-		alts, evAlts, endStep := vfC06Ref(cf.producer, cf.schemaVar != 0, inputs, turns)
+		alts, evAlts, endStep, dropped := vfC06Ref(cf.producer, cf.schemaVar != 0, inputs, turns)
 		base := "C06:" + kind + ":"
 		if pan != nil {
 			x.Failf(base+endStep+":serve-loop-panic", "serve loop panicked: %v", pan)
@@ -420,7 +435,17 @@ func TestVerif_C06(t *testing.T) {
 				}
 				as = append(as, "["+strings.Join(ts, " ")+"]")
 			}
-			x.Failf(base+bestStep+":batch-sequence", "data stream batches: [%s]\nacceptable (reference transducer): %s", strings.Join(got, " "), strings.Join(as, " | "))
+			sig := base + bestStep + ":batch-sequence"
+			for _, d := range dropped {
+				same := len(d) == len(got)
+				for i := 0; same && i < len(d); i++ {
+					same = d[i].s == got[i]
+				}
+				if same {
+					sig = base + "finish-turn-logs-dropped"
+				}
+			}
+			x.Failf(sig, "data stream batches: [%s]\nacceptable (reference transducer): %s", strings.Join(got, " "), strings.Join(as, " | "))
 		}
 		evOK := false
 		for _, e := range evAlts {
